@@ -232,8 +232,8 @@ pub struct Gen<'r> {
     pub batches: usize,
 }
 
-const FANCY: [&str; 12] = [
-    "my system", "a-b", "path/to/sys", "a b-c/d", "ünïcode", "x_y", " lead", "trail ", "--", "a/b", "a b", "a-b c",
+const FANCY: [&str; 16] = [
+    "my system", "a-b", "path/to/sys", "a b-c/d", "ünïcode", "x_y", " lead", "trail ", "--", "a/b", "a b", "a-b c", "/", "//x", "-", "q/r-s",
 ];
 
 impl<'r> Gen<'r> {
@@ -363,7 +363,13 @@ impl<'r> Gen<'r> {
         }
         if c.fancy_names && self.rng.chance(1, 2) {
             // unique because of the uid suffix; contains characters that need sanitising
-            format!("{} {}", self.rng.pick(&FANCY), uid)
+            // with and without an added space, so that names containing only one kind of
+            // separator (only '/', only '-', only ' ') occur as well
+            match self.rng.below(3) {
+                0 => format!("{} {}", self.rng.pick(&FANCY), uid),
+                1 => format!("{}{}", self.rng.pick(&FANCY), uid),
+                _ => format!("{}{}", uid, self.rng.pick(&FANCY)),
+            }
         } else {
             format!("s{}", uid)
         }
